@@ -354,6 +354,29 @@ def _annotate(it, bb, raw):
         out.append(s)
     return out
 
+NUP = None           # set by Machine: prog.closure_nup
+def _fix_closure_captures(it, stmts):
+    """textual MIR prints one capture per captured *variable*; a closure that captures several disjoint places of one variable
+    therefore shows too few operands.  The missing operands are the references built just before the aggregate that nothing else uses."""
+    if NUP is None: return stmts
+    for idx, s in enumerate(stmts):
+        if s[0] != 'assign' or s[2][0] != 'closure' or s[1][0] != 'local': continue
+        need = NUP.get((it.crate, it.name, s[1][1]))
+        caps = s[2][2]
+        if not need or len(caps) >= need: continue
+        text = '\n'.join('\n'.join(v) for v in it.blocks.values())
+        have = {c[1][1] for c in caps if c[0] in ('move', 'copy') and c[1][0] == 'local'}
+        first = min((int(x[1:]) for x in have), default=None)
+        extra = []
+        for t in stmts[:idx]:
+            if t[0] == 'assign' and t[1][0] == 'local' and t[1][1] not in have:
+                loc = t[1][1]
+                if len(re.findall(r'\b%s\b' % loc, text)) == 1 and (first is None or int(loc[1:]) > first): extra.append(('move', ('local', loc)))
+        if len(caps) + len(extra) != need:
+            raise Unsupported('closure captures cannot be reconstructed (%d printed, %d needed, %d candidates)' % (len(caps), need, len(extra)))
+        stmts[idx] = ('assign', s[1], ('closure', s[2][1], list(caps) + extra))
+    return stmts
+
 def block(it, bb):
     c = it.compiled
     if c is None: c = it.compiled = {}
@@ -362,6 +385,7 @@ def block(it, bb):
         raw = _annotate(it, bb, it.blocks[bb])
         try:
             stmts = [parse_statement(s) for s in raw[:-1]]
+            stmts = _fix_closure_captures(it, stmts)
             term = parse_terminator(raw[-1])
         except Unsupported as e:
             raise Unsupported('%s in %s %s' % (e, it.name, bb))
@@ -388,8 +412,8 @@ class Machine:
         self.models_used = set()   # contract models actually used
         self._dyn = {}; self._clo = {}
         self.split_depth = None; self.splits = []
-        global ZST_DEFS
-        ZST_DEFS = prog.closure_zst
+        global ZST_DEFS, NUP
+        ZST_DEFS = prog.closure_zst; NUP = prog.closure_nup
         from . import models
         self.intrinsics = models.INTRINSICS
 
